@@ -240,6 +240,26 @@ impl DelphiLogicalLinesReconstructor {
         self.reconstruction_settings.get_newline_str().len()
     }
 
+    /// The length of the token's leading whitespace up to and including its `count`th line break
+    fn leading_newlines_len(&self, token: (&Token, &FormattingData), count: usize) -> usize {
+        if token.1.is_ignored() {
+            // The original whitespace is emitted as it is, whatever line endings it uses
+            count
+                .checked_sub(1)
+                .and_then(|nth| {
+                    token
+                        .0
+                        .get_leading_whitespace()
+                        .match_indices('\n')
+                        .nth(nth)
+                })
+                .map(|(pos, _)| pos + 1)
+                .unwrap_or(0)
+        } else {
+            self.nl_len() * count
+        }
+    }
+
     fn col_for_token_end_pre_fmt(tokens: &[RawToken], mut idx: usize) -> usize {
         let mut col = 0;
         while let Some(tok) = tokens.get(idx) {
@@ -355,8 +375,10 @@ impl CursorTracker for CursorTrackerImpl<'_> {
                         }
 
                         (new_token_offset
-                            + (self.reconstructor.nl_len()
-                                * fmt.newlines_before.saturating_sub(lines_back) as usize)
+                            + self.reconstructor.leading_newlines_len(
+                                token,
+                                fmt.newlines_before.saturating_sub(lines_back) as usize,
+                            )
                             - self.reconstructor.ws_len(token)) as u32
                     } else {
                         // Either no newlines after cursor before formatting, or no newlines before token now
